@@ -377,7 +377,7 @@ def limits_case(rng, ctx, K, mon):
 # ---------------------------------------------------------------- driver ---
 def plan(tier, seed):
     n = 8 if tier == 'quick' else 16
-    return [{'cases': 120 if tier == 'quick' else 3000, 'sweeps': 6 if tier == 'quick' else 120}
+    return [{'cases': 120 if tier == 'quick' else 20000, 'sweeps': 6 if tier == 'quick' else 800}
             for _ in range(n)]
 
 
